@@ -393,6 +393,12 @@ func main() {
 			names = append(names, n)
 		}
 		sort.Strings(names)
+		// the buffer machine of the scanner (Model/ScanBuf.lean is a transcription of it)
+		for _, n := range []string{"Scanner.next", "Scanner.Next", "Scanner.Peek", "Scanner.Init"} {
+			if fd, ok := qf[n]; ok {
+				facts["body.sql."+n] = sq.src(fd.Body)
+			}
+		}
 		for _, n := range names {
 			if strings.HasPrefix(n, "Parser.") || strings.HasPrefix(n, "TokenList.") || strings.HasPrefix(n, "tokenScanner.") || n == "Token.Val" || n == "validateGroupByFields" || n == "unquote" {
 				facts["panics.sql."+n] = sq.panicSites(qf[n])
